@@ -1,0 +1,49 @@
+//go:build verif
+
+package sender
+
+// Contracts checked by /verif/gvc. Comment-only file (build tag verif).
+
+// C16, socket backends: callback accounting of the sender. owed(stream) is 1 while a stream taken from the sink
+// still waits for its completion callback. innerRun calls Cb exactly once for every stream it completes:
+//   calls(Cb) == owed(stream at entry) + streams taken from the sink - owed(stream returned)
+//@ pred owed(st *Stream) := ite(st != nil, 1, 0)
+//@ func (*Sender).innerRun
+//@   requires s != nil && conn != nil && s.Logger != nil && (stream != nil ==> stream.Cb != nil)
+//@   ensures  calls(Cb) == old(calls(Cb)) + owed(stream) + (received(s.Sink) - old(received(s.Sink))) - owed(result0)
+//@   ensures  result0 != nil ==> result0.Cb != nil
+//@   ensures  s.Logger == old(s.Logger) && s.ConnFactory == old(s.ConnFactory) && s.Sink == old(s.Sink)
+//@   recvsite assumes [sender.Stream] val.Cb != nil
+//@   recvsite assumes [bytes.Buffer] val != nil
+//@   loop 1 invariant param(s) != nil && conn != nil && param(s).Logger != nil && (stream != nil ==> stream.Cb != nil) && param(s).Sink == old(param(s).Sink)
+//@   loop 1 invariant calls(Cb) == old(calls(Cb)) + old(owed(stream)) + (received(param(s).Sink) - old(received(param(s).Sink))) - owed(stream)
+//@   loop 2 invariant param(s) != nil && conn != nil && param(s).Logger != nil && stream != nil && stream.Cb != nil && param(s).Sink == old(param(s).Sink)
+//@   loop 2 invariant calls(Cb) == old(calls(Cb)) + old(owed(stream)) + (received(param(s).Sink) - old(received(param(s).Sink))) - 1
+//@   modifies everything, calls(Cb), received
+
+// cleanup closes the sink and answers every stream still queued in it with the context's error.
+//@ func (*Sender).cleanup
+//@   requires s != nil
+//@   recvsite assumes [sender.Stream] val.Cb != nil
+//@   ensures  calls(Cb) - old(calls(Cb)) == received(s.Sink) - old(received(s.Sink))
+//@   loop 1 invariant calls(Cb) - old(calls(Cb)) == received(s.Sink) - old(received(s.Sink)) && s.Sink == old(s.Sink)
+//@   modifies everything, calls(Cb), received
+//@   preserves sender.Sender
+
+// Run: over its whole life the sender calls Cb exactly once for every stream it takes from the sink -- on success,
+// after a failed connection once the stream's own context is done, when the sender is stopped (deferred call),
+// and for the streams still queued at shutdown (cleanup).
+//@ func (*Sender).Run
+//@   requires s != nil && s.Logger != nil && s.ConnFactory != nil
+//@   recvsite assumes [sender.Stream] val.Cb != nil
+//@   ensures  calls(Cb) - old(calls(Cb)) == received(s.Sink) - old(received(s.Sink))
+//@   loop 1 invariant s.Logger != nil && s.ConnFactory != nil && s.Sink == old(s.Sink) && (stream != nil ==> stream.Cb != nil)
+//@   loop 1 invariant calls(Cb) - old(calls(Cb)) == received(s.Sink) - old(received(s.Sink)) - owed(stream)
+//@   loop 2 invariant s.Logger != nil && s.ConnFactory != nil && s.Sink == old(s.Sink) && (stream != nil ==> stream.Cb != nil)
+//@   loop 2 invariant calls(Cb) - old(calls(Cb)) == received(s.Sink) - old(received(s.Sink)) - owed(stream)
+//@   modifies everything
+// A connection factory yields a connection or an error (assumed).
+//@ functype ConnFactory()
+//@   ensures  result1 == nil ==> result0 != nil
+//@   modifies everything
+//@   preserves sender.Sender, sender.Stream
